@@ -14,7 +14,9 @@ for f in "$V"/seeded/C*/patch.diff "$V"/seeded/C*/patch_part?.diff "$V"/preservi
   git reset -q --hard HEAD; git clean -fdq
   if git apply --check "$f" 2>/dev/null; then continue; fi
   if git apply --3way "$f" >/dev/null 2>&1 && ! git diff --name-only --diff-filter=U | grep -q .; then
-     git reset -q; git diff > "$f"; echo "REBASED ${f#$V/}"
+     git reset -q
+     # (a merge that leaves nothing - the tree already has the change, or has lost what it edited - is a conflict to look at)
+     if [ -z "$(git diff)" ]; then echo "CONFLICT ${f#$V/} (3-way merge left no change)"; else git diff > "$f"; echo "REBASED ${f#$V/}"; fi
   else
      echo "CONFLICT ${f#$V/}"
   fi
